@@ -727,6 +727,9 @@ func (a *Analyzer) step(fr *frame, ins ssa.Instruction, st *State) []*State {
 		m := a.val(st, x.Map)
 		k := a.val(st, x.Key)
 		v := a.val(st, x.Value)
+		if a.OnMapUpdate != nil {
+			a.OnMapUpdate(fr.fn, x, st, m, k, v)
+		}
 		switch mv := m.(type) {
 		case *MapT:
 			key := "[" + k.TKey() + "]"
@@ -1043,8 +1046,13 @@ func (a *Analyzer) stepSlice(fr *frame, x *ssa.Slice, st *State) []*State {
 		nb := &Base{ID: a.id(), Desc: x.X.Name(), Fresh: true}
 		if pp, ok := xv.(*Ptr); ok && pp.Obj != nil && n <= 32 {
 			nb.Elems = make([]Term, n)
+			et := ut.Elem().Underlying().(*types.Array).Elem()
 			for k := int64(0); k < n; k++ {
-				nb.Elems[k] = st.Heap[Loc{pp.Obj.ID, fmt.Sprintf("%s[%d]", pp.Path, k)}]
+				if _, isStruct := et.Underlying().(*types.Struct); isStruct {
+					nb.Elems[k] = a.load(st, &Ptr{Obj: pp.Obj, Path: fmt.Sprintf("%s[%d]", pp.Path, k)}, et)
+				} else {
+					nb.Elems[k] = st.Heap[Loc{pp.Obj.ID, fmt.Sprintf("%s[%d]", pp.Path, k)}]
+				}
 			}
 		}
 		s = &Slice{Base: nb, Off: Const(0), Len: Const(n), Cap: &c}
@@ -1269,7 +1277,6 @@ func (a *Analyzer) debugHeap(st *State) string {
 	b.WriteString("\ncons: " + st.Cons.String())
 	return b.String()
 }
-
 
 // pairedPresent: is key k known to be present in the map paired with m (same owner object)?
 func (a *Analyzer) pairedPresent(st *State, m *MapT, k Term) bool {
